@@ -23,6 +23,7 @@ import (
 	"sync"
 
 	"google.golang.org/grpc"
+	"google.golang.org/grpc/metadata"
 )
 
 type key int
@@ -118,13 +119,72 @@ func (cs *gcpClientStream) RecvMsg(m interface{}) error {
 	// If RecvMsg is called before SendMsg, it should wait until cs.ClientStream
 	// is initialized or the initialization failed.
 	cs.Lock()
-	for cs.initStreamErr == nil && cs.ClientStream == nil {
-		cs.cond.Wait()
-	}
+	cs.waitForStream()
 	if cs.initStreamErr != nil {
 		cs.Unlock()
 		return cs.initStreamErr
 	}
 	cs.Unlock()
 	return cs.ClientStream.RecvMsg(m)
+}
+
+// waitForStream blocks until the underlying ClientStream is initialized or the
+// initialization failed. cs must be locked by the caller.
+func (cs *gcpClientStream) waitForStream() {
+	for cs.initStreamErr == nil && cs.ClientStream == nil {
+		cs.cond.Wait()
+	}
+}
+
+// The methods below must not be promoted from the embedded ClientStream: it is
+// nil until the first SendMsg (and stays nil if the initialization failed), and
+// calling a method of a nil interface panics.
+
+// Header blocks, like RecvMsg, until the underlying ClientStream is initialized
+// (the header cannot be ready earlier) or the initialization failed.
+func (cs *gcpClientStream) Header() (metadata.MD, error) {
+	cs.Lock()
+	cs.waitForStream()
+	if cs.initStreamErr != nil {
+		cs.Unlock()
+		return nil, cs.initStreamErr
+	}
+	cs.Unlock()
+	return cs.ClientStream.Header()
+}
+
+// Trailer returns no metadata as long as there is no underlying ClientStream.
+func (cs *gcpClientStream) Trailer() metadata.MD {
+	cs.Lock()
+	if cs.ClientStream == nil {
+		cs.Unlock()
+		return nil
+	}
+	cs.Unlock()
+	return cs.ClientStream.Trailer()
+}
+
+// CloseSend has nothing to close as long as there is no underlying
+// ClientStream. It does not create one: the stream is created by the first
+// message only, which the picker needs to see.
+func (cs *gcpClientStream) CloseSend() error {
+	cs.Lock()
+	if cs.ClientStream == nil {
+		cs.Unlock()
+		return nil
+	}
+	cs.Unlock()
+	return cs.ClientStream.CloseSend()
+}
+
+// Context returns the context of the underlying ClientStream, and the context
+// the stream was requested with as long as there is none.
+func (cs *gcpClientStream) Context() context.Context {
+	cs.Lock()
+	if cs.ClientStream == nil {
+		cs.Unlock()
+		return cs.ctx
+	}
+	cs.Unlock()
+	return cs.ClientStream.Context()
 }
